@@ -721,6 +721,166 @@ def _operator_calls(fnode, modtree=None):
     return changed[0]
 
 
+def _merge_conditional_tail(fnode):
+    """`if C: K = A  else: K = A + E` (A a local accumulator that is not read afterwards and is re-initialised before it is
+    read again) -> `if not C: A += E ; K = A`: the accumulating spelling of the same final value."""
+    changed = [False]
+
+    def loads_after(name, node):
+        end = getattr(node, 'end_lineno', node.lineno)
+        return any(isinstance(x, ast.Name) and x.id == name and isinstance(x.ctx, ast.Load) and x.lineno > end for x in ast.walk(fnode))
+
+    def fix(stmts, loop_body):
+        out = []
+        for i, st in enumerate(stmts):
+            done = False
+            if isinstance(st, ast.If) and len(st.body) == 1 and len(st.orelse) == 1 and all(
+                    isinstance(b, ast.Assign) and len(b.targets) == 1 and isinstance(b.targets[0], ast.Name) for b in (st.body[0], st.orelse[0])) \
+                    and st.body[0].targets[0].id == st.orelse[0].targets[0].id:
+                K = st.body[0].targets[0].id
+                for plain, plus, neg in ((st.body[0], st.orelse[0], True), (st.orelse[0], st.body[0], False)):
+                    if isinstance(plain.value, ast.Name) and plain.value.id != K and isinstance(plus.value, ast.BinOp) \
+                            and isinstance(plus.value.op, ast.Add) and isinstance(plus.value.left, ast.Name) and plus.value.left.id == plain.value.id:
+                        A = plain.value.id
+                        if loads_after(A, st):
+                            continue
+                        if loop_body is not None:
+                            # re-initialised at the top level of the loop body before this statement
+                            reset = any(isinstance(b, ast.Assign) and any(
+                                isinstance(x, ast.Name) and x.id == A for t in b.targets for x in ([t] if isinstance(t, ast.Name) else
+                                                                                                   t.elts if isinstance(t, ast.Tuple) else []))
+                                for b in stmts[:i])
+                            if not reset or stmts is not loop_body:
+                                continue
+                        test = ast.UnaryOp(op=ast.Not(), operand=st.test) if neg else st.test
+                        if neg and isinstance(st.test, ast.UnaryOp) and isinstance(st.test.op, ast.Not):
+                            test = st.test.operand
+                        new_if = ast.If(test=test, body=[ast.AugAssign(target=ast.Name(id=A, ctx=ast.Store()), op=ast.Add(), value=plus.value.right)], orelse=[])
+                        cp = ast.Assign(targets=[ast.Name(id=K, ctx=ast.Store())], value=ast.Name(id=A, ctx=ast.Load()))
+                        for x in (new_if, cp):
+                            ast.copy_location(x, st)
+                            ast.fix_missing_locations(x)
+                        out += [new_if, cp]
+                        changed[0] = done = True
+                        break
+            if not done:
+                for field in ('body', 'orelse', 'finalbody'):
+                    blk = getattr(st, field, None)
+                    if isinstance(blk, list) and blk and isinstance(blk[0], ast.stmt) and not isinstance(st, (ast.FunctionDef, ast.ClassDef)):
+                        lb = blk if isinstance(st, (ast.For, ast.While)) and field == 'body' else (loop_body if not isinstance(st, (ast.For, ast.While)) else None)
+                        setattr(st, field, fix(blk, lb))
+                out.append(st)
+        return out
+    fnode.body = fix(fnode.body, None)
+    return changed[0]
+
+
+def _fold_reflection(fnode):
+    """Constant string building and reflective attribute access written out: `"add_%s" % "x"` -> `"add_x"`,
+    `getattr(o, "m")` -> `o.m`, and `f = o.m` immediately followed by the only use `.. f(args) ..` -> `.. o.m(args) ..`
+    (what is left after a helper that received the method name as a constant was inlined)."""
+    changed = [False]
+
+    def cstr(n):
+        return isinstance(n, ast.Constant) and isinstance(n.value, (str, int))
+
+    class T(ast.NodeTransformer):
+        def visit_BinOp(self, node):
+            self.generic_visit(node)
+            if isinstance(node.op, ast.Mod) and isinstance(node.left, ast.Constant) and isinstance(node.left.value, str):
+                r = node.right
+                vals = [r] if cstr(r) else list(r.elts) if isinstance(r, ast.Tuple) and all(cstr(e) for e in r.elts) else None
+                if vals is not None:
+                    try:
+                        out = node.left.value % tuple(v.value for v in vals)
+                    except Exception:
+                        return node
+                    changed[0] = True
+                    return ast.copy_location(ast.Constant(value=out), node)
+            if isinstance(node.op, ast.Add) and all(isinstance(x, ast.Constant) and isinstance(x.value, str) for x in (node.left, node.right)):
+                changed[0] = True
+                return ast.copy_location(ast.Constant(value=node.left.value + node.right.value), node)
+            return node
+
+        def visit_JoinedStr(self, node):
+            self.generic_visit(node)
+            parts = []
+            for v in node.values:
+                if isinstance(v, ast.Constant) and isinstance(v.value, str):
+                    parts.append(v.value)
+                elif isinstance(v, ast.FormattedValue) and cstr(v.value) and v.conversion == -1 and v.format_spec is None:
+                    parts.append(str(v.value.value))
+                else:
+                    return node
+            changed[0] = True
+            return ast.copy_location(ast.Constant(value=''.join(parts)), node)
+
+        def visit_Call(self, node):
+            self.generic_visit(node)
+            f = node.func
+            if isinstance(f, ast.Attribute) and f.attr == 'format' and isinstance(f.value, ast.Constant) and isinstance(f.value.value, str) \
+                    and all(cstr(a) for a in node.args) and not node.keywords:
+                try:
+                    out = f.value.value.format(*[a.value for a in node.args])
+                except Exception:
+                    return node
+                changed[0] = True
+                return ast.copy_location(ast.Constant(value=out), node)
+            if isinstance(f, ast.Name) and f.id == 'getattr' and len(node.args) == 2 and not node.keywords \
+                    and isinstance(node.args[1], ast.Constant) and isinstance(node.args[1].value, str) and node.args[1].value.isidentifier():
+                changed[0] = True
+                return ast.copy_location(ast.Attribute(value=node.args[0], attr=node.args[1].value, ctx=ast.Load()), node)
+            return node
+    fnode.body = [T().visit(s_) for s_ in fnode.body]
+    if not changed[0]:
+        return False
+    uses = {}
+    for n in ast.walk(fnode):
+        if isinstance(n, ast.Name):
+            uses[n.id] = uses.get(n.id, 0) + 1
+
+    def fix(stmts):
+        out, i = [], 0
+        while i < len(stmts):
+            s_ = stmts[i]
+            nxt = stmts[i + 1] if i + 1 < len(stmts) else None
+            if isinstance(s_, ast.Assign) and len(s_.targets) == 1 and isinstance(s_.targets[0], ast.Name) and isinstance(s_.value, ast.Attribute) \
+                    and uses.get(s_.targets[0].id) == 2 and nxt is not None and isinstance(nxt, (ast.Assign, ast.Expr, ast.Return, ast.AugAssign)):
+                nm = s_.targets[0].id
+                calls = [c for c in ast.walk(nxt) if isinstance(c, ast.Call) and isinstance(c.func, ast.Name) and c.func.id == nm]
+                if len(calls) == 1:
+                    calls[0].func = s_.value
+                    i += 1
+                    continue
+            for field in ('body', 'orelse', 'finalbody'):
+                blk = getattr(s_, field, None)
+                if isinstance(blk, list) and blk and isinstance(blk[0], ast.stmt) and not isinstance(s_, (ast.FunctionDef, ast.ClassDef)):
+                    setattr(s_, field, fix(blk))
+            out.append(s_)
+            i += 1
+        return out
+    fnode.body = fix(fnode.body)
+    return True
+
+
+def _leading_ifs(n):
+    """the if statements whose tests are evaluated before any other statement inside `n` runs: n itself, an if that is the
+    first statement of a body or of an else-branch of such an if"""
+    out = [n]
+    for blk in (n.body, n.orelse):
+        if blk and isinstance(blk[0], ast.If):
+            out += _leading_ifs(blk[0])
+    return out
+
+
+def _only_in_leading_tests(n, name, nuses, value):
+    """every read of `name` is in the test of a leading if of `n`, and the value is a pure expression without calls"""
+    if any(isinstance(x, (ast.Call, ast.Await, ast.Yield, ast.NamedExpr, ast.Lambda)) for x in ast.walk(value)):
+        return False
+    cnt = sum(1 for t_if in _leading_ifs(n) for x in ast.walk(t_if.test) if isinstance(x, ast.Name) and x.id == name)
+    return cnt == nuses
+
+
 def _fold_condition_vars(fnode):
     """`c = E ; if c: ...` / `while c:` with c used nowhere else  ->  `if E: ...` (a test that was given a name)."""
     uses = {}
@@ -734,6 +894,19 @@ def _fold_condition_vars(fnode):
         while i < len(stmts):
             s_ = stmts[i]
             nxt = stmts[i + 1] if i + 1 < len(stmts) else None
+            if isinstance(s_, ast.Assign) and len(s_.targets) == 1 and isinstance(s_.targets[0], ast.Name) \
+                    and isinstance(nxt, ast.If) and uses.get(s_.targets[0].id, 0) > 2 and _only_in_leading_tests(nxt, s_.targets[0].id, uses[s_.targets[0].id] - 1, s_.value):
+                # the named condition is read by several tests, all evaluated before any statement of the if runs
+                nm = s_.targets[0].id
+
+                class _S(ast.NodeTransformer):
+                    def visit_Name(self, node):
+                        return _copy(s_.value) if node.id == nm and isinstance(node.ctx, ast.Load) else node
+                for t_if in _leading_ifs(nxt):
+                    t_if.test = _S().visit(t_if.test)
+                changed[0] = True
+                i += 1
+                continue
             if isinstance(s_, ast.Assign) and len(s_.targets) == 1 and isinstance(s_.targets[0], ast.Name) \
                     and isinstance(nxt, ast.If) and uses.get(s_.targets[0].id) == 2:
                 nm = s_.targets[0].id
@@ -939,11 +1112,13 @@ def inline_program(prog):
         fn.node.body = rewrite_block(fn, fn.node.body, 0)
         folded = _unroll_table_loops(fn.node, fn.module.tree)
         folded = _operator_calls(fn.node, fn.module.tree) or folded
+        folded = _fold_reflection(fn.node) or folded
         folded = _fold_return_vars(fn.node) or folded
         folded = _expand_star_tuples(fn.node) or folded
         folded = _fold_condition_vars(fn.node) or folded
         folded = _fold_field_aliases(fn.node) or folded
         folded = _fold_attr_snapshots(fn.node) or folded
+        folded = _merge_conditional_tail(fn.node) or folded
         folded = _split_or_guards(fn.node) or folded
         folded = _list_accumulators_to_tuples(fn.node) or folded
         if count != before or folded:
